@@ -7,6 +7,8 @@ pub fn main_pool(args: &[String]) -> i32 {
     let mut racers = 1usize;
     // `--from-rayon`: the callers are worker threads of another rayon pool (an application with its own pool)
     let mut from_rayon = false;
+    // `--rounds K`: afterwards, K sequential obtain / use / drop rounds on this thread, then count the threads left alive
+    let mut rounds = 0usize;
     let mut i = 0;
     while i < args.len() {
         if args[i] == "--racers" {
@@ -15,6 +17,9 @@ pub fn main_pool(args: &[String]) -> i32 {
         } else if args[i] == "--from-rayon" {
             from_rayon = true;
             i += 1;
+        } else if args[i] == "--rounds" {
+            rounds = args.get(i + 1).and_then(|s| s.parse().ok()).unwrap_or(0);
+            i += 2;
         } else {
             i += 1;
         }
@@ -44,11 +49,9 @@ pub fn main_pool(args: &[String]) -> i32 {
         let workers = distinct.len();
         let again = cfavml_utils::get_or_init_pool();
         let again_borrowed = matches!(again, cfavml_utils::MaybeBorrowedPool::Borrowed(_));
-        let again_ok = again_borrowed == borrowed
-            && (if borrowed { addr_of(&again) == addr } else { addr_of(&again) != addr })
-            && again.current_num_threads() == threads
-            && again.install(|| (1..=100u64).sum::<u64>()) == work;
-        (threads, borrowed, addr, work, workers, again_ok)
+        let again_works = again.current_num_threads() == threads && again.install(|| (1..=100u64).sum::<u64>()) == work;
+        let again_same = addr_of(&again) == addr && again_borrowed == borrowed;
+        (threads, borrowed, addr, work, workers, again_works, again_same)
     };
     let mut results = vec![];
     if from_rayon {
@@ -83,19 +86,43 @@ pub fn main_pool(args: &[String]) -> i32 {
             }
         }
     }
-    let (threads, borrowed, addr0, work, _, _) = results[0];
+    let (threads, borrowed, addr0, work, _, _, _) = results[0];
     let workers_ok = results.iter().all(|r| r.4 == r.0);
+    // `again_ok`: the second answer is a working pool of the same size; `again_same`: it is the very same pool
     let again_ok = results.iter().all(|r| r.5);
+    let again_same = results.iter().all(|r| r.6);
     let all_borrowed = results.iter().all(|r| r.1);
-    let same = if all_borrowed { results.iter().all(|r| r.2 == addr0) } else { results.iter().all(|r| !r.1) };
+    // `same`: every caller holds the very same pool object
+    let same = results.iter().all(|r| r.2 == addr0);
+    let all_owned = results.iter().all(|r| !r.1);
     let same_threads = results.iter().all(|r| r.0 == threads);
     // let every worker finish its start handler
     std::thread::sleep(std::time::Duration::from_millis(60));
     let panics = PANICS.load(std::sync::atomic::Ordering::SeqCst);
     let pools = if all_borrowed { 1 } else { 2 * results.len() };
+    drop(results);
+    let mut rounds_ok = true;
+    for _ in 0..rounds {
+        let ok = std::panic::catch_unwind(|| {
+            let pool = cfavml_utils::get_or_init_pool();
+            pool.install(|| (1..=100u64).sum::<u64>()) == 5050
+        });
+        if !matches!(ok, Ok(true)) {
+            rounds_ok = false;
+            break;
+        }
+    }
+    if rounds > 0 {
+        std::thread::sleep(std::time::Duration::from_millis(300));
+    }
+    let alive = std::fs::read_to_string("/proc/self/status")
+        .ok()
+        .and_then(|t| t.lines().find(|l| l.starts_with("Threads:")).and_then(|l| l.split_whitespace().nth(1).and_then(|x| x.parse::<usize>().ok())))
+        .unwrap_or(0);
     println!(
-        "threads={} borrowed={} same={} same_threads={} work={} physical={} panics={} avail={} pools={} workers_ok={} again_ok={}",
-        threads, borrowed as u8, same as u8, same_threads as u8, work, physical, panics, avail, pools, workers_ok as u8, again_ok as u8
+        "threads={} borrowed={} same={} same_threads={} work={} physical={} panics={} avail={} pools={} workers_ok={} again_ok={} all_owned={} rounds={} rounds_ok={} alive={} again_same={}",
+        threads, borrowed as u8, same as u8, same_threads as u8, work, physical, panics, avail, pools, workers_ok as u8, again_ok as u8,
+        all_owned as u8, rounds, rounds_ok as u8, alive, again_same as u8
     );
     0
 }
